@@ -7,6 +7,7 @@ Reads (with `ast`, nothing is imported or executed):
         __init__, can_compose_with, can_quotient_by, shares_io_with, compose_tactics,
         quotient_tactics, merge, rename_variable)
   * a few numeric facts of polyhedra.py / data.py -> Gen/Consts.lean
+  * the shape of IoContract.__eq__ / IoContractCompound.__eq__ (are the output lists compared?) -> Gen/Consts.lean
 
 Supported expression subset: names, attribute reads `self.x`/`other.x`, calls of `list_*`/`lists_equal`,
 `len(e)`, `e.copy()`, list comprehension with one `for` and one `in`/`not in` filter, `+` on lists,
@@ -280,8 +281,84 @@ def gen_consts(src):
         raise TranslateError("_combine_optional_floats: unrecognised body")
     out.append(f"/-- `_combine_optional_floats(None, None)` (`none` = coefficient 1; the correct value is `some 2`) -/\ndef combineNoneNone : Option Rat := {val}\n")
 
+    # 5. which fields the contract equalities compare (C19)
+    out.extend(gen_eq_consts(src))
+
     out.append("end Gen")
     return "\n".join(out) + "\n"
+
+
+# ----------------------------------------------------------------------------------------------
+# equality of contracts (C19): which fields does `__eq__` compare?
+
+
+def _eq_compares_outputs(path, cls):
+    """Read `cls.__eq__` of the file: it must be
+           if not isinstance(other, type(self)): raise ValueError
+           return (self.inputvars == other.inputvars and <OUT> and self.a == other.a and self.g == other.g)
+       with <OUT> = `self.outputvars == other.outputvars` (-> true) or the pinned `self.outputvars == self.outputvars`
+       (-> false: the output lists are not compared).  Any other shape is a translator error."""
+    tree = ast.parse(open(path).read())
+    f = _find_func(tree, cls, "__eq__")
+    body = [s for s in f.body if not (isinstance(s, ast.Expr) and isinstance(s.value, ast.Constant))]
+    if len(body) != 2 or not isinstance(body[0], ast.If) or not isinstance(body[1], ast.Return):
+        fail(f, f"{cls}.__eq__: body is not `if …: raise` + `return`")
+    guard = body[0]
+    if ast.unparse(guard.test) != "not isinstance(other, type(self))" or guard.orelse or len(guard.body) != 1 \
+            or not isinstance(guard.body[0], ast.Raise) or ast.unparse(guard.body[0]) not in ("raise ValueError", "raise ValueError()"):
+        fail(guard, f"{cls}.__eq__: unrecognised type guard")
+    e = body[1].value
+    if not (isinstance(e, ast.BoolOp) and isinstance(e.op, ast.And) and len(e.values) == 4):
+        fail(body[1], f"{cls}.__eq__: the result is not a conjunction of four comparisons")
+    txt = [ast.unparse(v) for v in e.values]
+    if txt[0] != "self.inputvars == other.inputvars" or txt[2] != "self.a == other.a" or txt[3] != "self.g == other.g":
+        fail(body[1], f"{cls}.__eq__: unrecognised conjuncts {txt}")
+    if txt[1] == "self.outputvars == other.outputvars":
+        return "true"
+    if txt[1] == "self.outputvars == self.outputvars":
+        return "false"
+    fail(e.values[1], f"{cls}.__eq__: unrecognised comparison of the output lists")
+
+
+def _str_const_plus_zero(src):
+    """`PolyhedralTerm.__str__` / `__hash__` must have the modelled shape; the only recognised variation is whether the
+    constant is printed as `str(self.constant)` (-> false: -0.0 and 0.0 print differently) or `str(self.constant + 0.0)`
+    (-> true: both zeros print as 0.0)."""
+    tree = ast.parse(open(os.path.join(src, "pacti/terms/polyhedra/polyhedra.py")).read())
+    f = _find_func(tree, "PolyhedralTerm", "__str__")
+    body = [ast.unparse(s) for s in f.body if not (isinstance(s, ast.Expr) and isinstance(s.value, ast.Constant))]
+    head = ["varlist = list(self.variables.items())", "varlist.sort(key=lambda x: str(x[0]))",
+            "res = ' + '.join([str(coeff) + '*' + var.name for var, coeff in varlist])"]
+    if len(body) != 5 or body[:3] != head or body[4] != "return res":
+        fail(f, "PolyhedralTerm.__str__: unrecognised body")
+    if body[3] == "res += ' <= ' + str(self.constant)":
+        val = "false"
+    elif body[3] == "res += ' <= ' + str(self.constant + 0.0)":
+        val = "true"
+    else:
+        fail(f, "PolyhedralTerm.__str__: unrecognised printing of the constant")
+    h = _find_func(tree, "PolyhedralTerm", "__hash__")
+    if [ast.unparse(s) for s in h.body] != ["return hash(str(self))"]:
+        fail(h, "PolyhedralTerm.__hash__: unrecognised body")
+    h = _find_func(tree, "PolyhedralTermList", "__hash__")
+    if [ast.unparse(s) for s in h.body] != ["return hash(tuple(self.terms))"]:
+        fail(h, "PolyhedralTermList.__hash__: unrecognised body")
+    return val
+
+
+def gen_eq_consts(src):
+    out = []
+    v = _eq_compares_outputs(os.path.join(src, "pacti/iocontract/iocontract.py"), "IoContract")
+    out.append("/-- does `IoContract.__eq__` compare the two output lists?  (`false` = the pinned `self.outputvars == self.outputvars`) -/\n"
+               f"def eqComparesOutputs : Bool := {v}\n")
+    v = _eq_compares_outputs(os.path.join(src, "pacti/iocontract/compundiocontract.py"), "IoContractCompound")
+    out.append("/-- the same for `IoContractCompound.__eq__` -/\n"
+               f"def eqCompoundComparesOutputs : Bool := {v}\n")
+    v = _str_const_plus_zero(src)
+    out.append("/-- does `PolyhedralTerm.__str__` (hence `__hash__`) print the constant as `str(self.constant + 0.0)`, so that -0.0 and 0.0\n"
+               "    print alike?  (`false` = the pinned `str(self.constant)`) -/\n"
+               f"def strConstPlusZero : Bool := {v}\n")
+    return out
 
 
 def _parse_tol(rhs, b):
